@@ -139,7 +139,7 @@ class Recorder:
         for _, m, c in self.events:
             if isinstance(m, str) and scalarish(c):
                 out.append(m + "." + str(c))
-            elif (m is None or isinstance(m, (int, bool))) and (isinstance(c, (str, int, bool)) or c is None):
+            elif scalarish(m) and scalarish(c):
                 out.append(str(m) + "." + str(c))
             else:
                 out.append(None)
